@@ -177,6 +177,33 @@ func (ca *condAtoms) flagIndex(o types.Object) int {
 	return -1
 }
 
+// nilFlag: the comparison is `v == nil` / `v != nil` for a tracked pointer-like
+// local v (through its temporaries); it returns the flag index or -1.
+func (ca *condAtoms) nilFlag(be *ast.BinaryExpr) int {
+	if len(ca.flags) == 0 {
+		return -1
+	}
+	f := ca.g.Fn
+	var other ast.Expr
+	switch {
+	case f.IsNilLit(be.Y):
+		other = be.X
+	case f.IsNilLit(be.X):
+		other = be.Y
+	default:
+		return -1
+	}
+	id, ok := ast.Unparen(f.Resolve(other)).(*ast.Ident)
+	if !ok {
+		return -1
+	}
+	o := f.ObjOf(id)
+	if o == nil || !ca.g.nilFlags[o] {
+		return -1
+	}
+	return ca.flagIndex(o)
+}
+
 func (ca *condAtoms) atomIndex(e ast.Expr) int {
 	for i, x := range ca.exprs {
 		if ca.g.Fn.SameValue(x, e) {
@@ -203,8 +230,15 @@ func (ca *condAtoms) form(e ast.Expr, depth int) *cform {
 		case token.LOR:
 			return &cform{op: gOr, kids: []*cform{ca.form(x.X, depth), ca.form(x.Y, depth)}, expr: x}
 		case token.NEQ:
+			if k := ca.nilFlag(x); k >= 0 {
+				return &cform{op: gNot, kids: []*cform{{op: gLeaf, atom: -1 - k}}}
+			}
 			eq := &ast.BinaryExpr{X: x.X, Op: token.EQL, Y: x.Y, OpPos: x.OpPos}
 			return &cform{op: gNot, kids: []*cform{{op: gLeaf, atom: ca.atomIndex(eq)}}}
+		case token.EQL:
+			if k := ca.nilFlag(x); k >= 0 {
+				return &cform{op: gLeaf, atom: -1 - k}
+			}
 		}
 	case *ast.Ident:
 		if c := f.ConstVal(x); c != nil && c.Kind() == constant.Bool {
@@ -583,6 +617,7 @@ func (g *Graph) boolFlags() []types.Object {
 	}
 	f := g.Fn
 	var out []types.Object
+	g.flags = &[]types.Object{} // re-entrancy guard (LocalDef may ask for a dominance while flags are collected)
 	seen := map[types.Object]bool{}
 	consider := func(id *ast.Ident) {
 		o := f.ObjOf(id)
@@ -660,6 +695,72 @@ func (g *Graph) boolFlags() []types.Object {
 		}
 	}
 	out = flags
+	// pointer-like locals that are assigned nil on some path and compared with nil
+	nilAssigned := map[types.Object]bool{}
+	ast.Inspect(f.Body, func(n ast.Node) bool {
+		switch st := n.(type) {
+		case *ast.AssignStmt:
+			if len(st.Lhs) == len(st.Rhs) {
+				for i, l := range st.Lhs {
+					if id, ok := l.(*ast.Ident); ok && f.IsNilLit(st.Rhs[i]) {
+						nilAssigned[f.ObjOf(id)] = true
+					}
+				}
+			}
+		case *ast.ValueSpec:
+			for i, nm := range st.Names {
+				if len(st.Values) == 0 || (i < len(st.Values) && f.IsNilLit(st.Values[i])) {
+					nilAssigned[f.Info().Defs[nm]] = true
+				}
+			}
+		}
+		return true
+	})
+	g.nilFlags = map[types.Object]bool{}
+	for _, b := range g.Blocks {
+		for k := range b.Succs {
+			c := g.edgeCond(b, k)
+			if c == nil {
+				continue
+			}
+			ast.Inspect(c.E, func(n ast.Node) bool {
+				be, ok := n.(*ast.BinaryExpr)
+				if !ok || (be.Op != token.EQL && be.Op != token.NEQ) {
+					return true
+				}
+				var other ast.Expr
+				switch {
+				case f.IsNilLit(be.Y):
+					other = be.X
+				case f.IsNilLit(be.X):
+					other = be.Y
+				default:
+					return true
+				}
+				id, ok := ast.Unparen(f.Resolve(other)).(*ast.Ident)
+				if !ok {
+					return true
+				}
+				o := f.ObjOf(id)
+				v, isVar := o.(*types.Var)
+				if !isVar || v.IsField() || v.Pkg() == nil || v.Parent() == v.Pkg().Scope() || !nilAssigned[o] || g.nilFlags[o] || f.assignedInLit(o) {
+					return true
+				}
+				switch v.Type().Underlying().(type) {
+				case *types.Pointer, *types.Interface, *types.Slice, *types.Map, *types.Signature, *types.Chan:
+				default:
+					return true
+				}
+				g.nilFlags[o] = true
+				out = append(out, o)
+				if g.flagIdent == nil {
+					g.flagIdent = map[types.Object]*ast.Ident{}
+				}
+				g.flagIdent[o] = id
+				return true
+			})
+		}
+	}
 	g.flags = &out
 	return out
 }
@@ -683,11 +784,15 @@ func (ga *guardAnalysis) full() []uint64 {
 		if id == nil {
 			continue
 		}
+		var probe ast.Expr = id
+		if ga.g.nilFlags[o] {
+			probe = &ast.BinaryExpr{X: id, Op: token.EQL, Y: ast.NewIdent("nil"), OpPos: id.Pos()}
+		}
 		for i := 0; i < ga.nLeaf; i++ {
 			l := ga.c.leaves[i]
-			if l(Fact{id, true}) {
+			if l(Fact{probe, true}) {
 				fties = append(fties, ftie{i, k, true})
-			} else if l(Fact{id, false}) {
+			} else if l(Fact{probe, false}) {
 				fties = append(fties, ftie{i, k, false})
 			}
 		}
@@ -770,7 +875,11 @@ func (ga *guardAnalysis) transferNode(n ast.Node, s []uint64) []uint64 {
 		out := make([]uint64, ga.words)
 		var cf *cform
 		if known && rhs != nil {
-			cf = ga.ca.form(rhs, 0)
+			if ga.g.nilFlags[ga.ca.flags[k]] {
+				cf = ga.nilForm(rhs)
+			} else {
+				cf = ga.ca.form(rhs, 0)
+			}
 		}
 		for a := 0; a < 1<<uint(ga.nVar); a++ {
 			if s[a/64]&(1<<uint(a%64)) == 0 {
@@ -858,6 +967,39 @@ func (ga *guardAnalysis) transferNode(n ast.Node, s []uint64) []uint64 {
 		}
 	}
 	return s
+}
+
+// nilForm describes whether the assigned value is nil: the literal nil (true), an
+// address / literal / allocation (false), another tracked variable (its flag),
+// anything else unknown.
+func (ga *guardAnalysis) nilForm(rhs ast.Expr) *cform {
+	f := ga.g.Fn
+	rhs = ast.Unparen(rhs)
+	if f.IsNilLit(rhs) {
+		return &cform{op: gTrue, val: true}
+	}
+	switch x := rhs.(type) {
+	case *ast.UnaryExpr:
+		if x.Op == token.AND {
+			return &cform{op: gTrue, val: false}
+		}
+	case *ast.CompositeLit, *ast.FuncLit:
+		return &cform{op: gTrue, val: false}
+	case *ast.CallExpr:
+		if id, ok := x.Fun.(*ast.Ident); ok && (id.Name == "new" || id.Name == "make") {
+			if _, isB := f.Info().Uses[id].(*types.Builtin); isB {
+				return &cform{op: gTrue, val: false}
+			}
+		}
+	}
+	if id, ok := ast.Unparen(f.Resolve(rhs)).(*ast.Ident); ok {
+		if o := f.ObjOf(id); o != nil && ga.g.nilFlags[o] {
+			if k := ga.ca.flagIndex(o); k >= 0 {
+				return &cform{op: gLeaf, atom: -1 - k}
+			}
+		}
+	}
+	return nil
 }
 
 // solve computes, for every block, the assignments possible at its entry.
